@@ -126,7 +126,188 @@ def c07(chk):
     chk.cov["exhaustive"] = True
 
 
-REGISTRY = {"C05": c05, "C07": c07, "C09": c09}
+# ------------------------------------------------------------------------------------------
+def scope_of(*prefixes):
+    return lambda tag: any(str(tag).startswith(p + ":") for p in prefixes)
+
+
+def mc_store(chk):
+    chk.mc("MC_Store", "MC_Store_thorough.cfg" if thorough(chk) else "MC_Store.cfg", workers=8, timeout=3000)
+
+
+def drive(chk, family, extra=None):
+    t = "thorough" if thorough(chk) else "quick"
+    trace = os.path.join(chk.wd, family + ".ndjson")
+    pmv(["drive", family, "--seed", chk.seed, "--tier", t, "--out", trace] + (extra or []))
+    return trace
+
+
+def nth_event(trace, pred, n=1):
+    k = 0
+    with open(trace) as f:
+        for line in f:
+            o = json.loads(line)
+            if pred(o):
+                k += 1
+                if k == n:
+                    return line
+    raise ToolError("no event for negative control in " + trace)
+
+
+def segment_with(trace, pred, max_events=4000):
+    """the trace segment (from the preceding New to the event) containing the first event matching pred"""
+    seg = []
+    with open(trace) as f:
+        for line in f:
+            o = json.loads(line)
+            if o["ev"] in ("New",):
+                seg = []
+            seg.append(line)
+            if pred(o):
+                return seg[-max_events:] if len(seg) <= max_events else seg
+    raise ToolError("no segment for negative control in " + trace)
+
+
+def neg_segment(chk, seg, mutate, name, expect_prefix):
+    """corrupt the last event of a segment; the trace spec must report a tag with the given prefix on it"""
+    lines = list(seg)
+    lines[-1] = vlib.mutate_json_line(lines[-1], mutate) + "\n"
+    p = os.path.join(chk.wd, f"neg_{name}.ndjson")
+    with open(p, "w") as f:
+        f.writelines(lines)
+    n, fails, _ = vlib.validate_trace("Trace_Archive", p, chk.wd, "neg_" + name, timeout=600)
+    hit = [x for x in fails if x[0] == len(lines) and str(x[2]).startswith(expect_prefix)]
+    if not hit:
+        raise ToolError(f"negative control {name}: corrupted event was accepted (fails={fails[:5]})")
+    chk.cov["negative_controls_rejected"] += 1
+
+
+def c04(chk):
+    mc_store(chk)
+    trace = drive(chk, "history")
+    chk.validate("Trace_Archive", trace, "history", scope=scope_of("C04"), parallel=6, cuts=True, timeout=3000)
+    seg = segment_with(trace, lambda o: o["ev"] == "Get" and o["res"] == "some")
+    neg_segment(chk, seg, lambda o: o.update(tok=o["tok"] + 1), "get_tok", "C04")
+    neg_segment(chk, seg, lambda o: o.update(res="none"), "get_none", "C04")
+    seg = segment_with(trace, lambda o: o["ev"] == "List" and len(o["ids"]) >= 2)
+    neg_segment(chk, seg, lambda o: o["ids"].pop(), "list_drop", "C04")
+    seg = segment_with(trace, lambda o: o["ev"] == "Count" and o["n"] >= 1)
+    neg_segment(chk, seg, lambda o: o.update(n=o["n"] - 1), "count", "C04")
+    chk.sample([json.loads(x) for x in seg[:6]])
+    chk.assumptions += ["the 64-bit content hash is injective on the contents used (modelled as identity)"]
+    chk.cov["rule"] = ("MC: all histories over 3 (4) adjacent IDs x 3 colliding contents + empty, closed state space; "
+                       "impl: seeded random histories (adds, replaces, removes, empty adds, lookups, listings, counts, settings, "
+                       "save+reopen sync/async) over 8-20 IDs and 5-12 colliding contents; every event matched with the TileStore action")
+
+
+def c10(chk):
+    mc_store(chk)
+    trace = drive(chk, "history")
+    chk.validate("Trace_Archive", trace, "history", scope=scope_of("C10"), parallel=6, cuts=True, timeout=3000)
+    seg = segment_with(trace, lambda o: o["ev"] == "Add" and "counts" in o and o["counts"][1] >= 2)
+    def c_counts(o):
+        o["counts"][1] += 1
+    neg_segment(chk, seg, c_counts, "retention", "C10")
+    trace2 = drive(chk, "bulk")
+    chk.validate("Trace_Archive", trace2, "bulk", scope=scope_of("C10"), parallel=6, cuts=True, timeout=3000)
+    def two_offsets(o):
+        ts = o["file"]["tiles"]
+        # give a second entry the content token of the first although it lives at another offset
+        for t in ts[1:]:
+            if t["off"] != ts[0]["off"] and t["tok"] != ts[0]["tok"]:
+                t["tok"] = ts[0]["tok"]
+                return
+        raise ToolError("negative control: no suitable entry")
+    seg = segment_with(trace2, lambda o: o["ev"] == "Save" and o["res"] == "ok" and len({json.dumps(t["off"]) for t in o["file"]["tiles"]}) >= 2)
+    neg_segment(chk, seg, two_offsets, "dedup", "C10")
+    chk.sample(json.loads(seg[-1])["file"]["tiles"][:5])
+    chk.assumptions += ["the 64-bit content hash is injective on the contents used",
+                        "tile content tokens are assigned by the harness by full byte equality of the slice at data offset + entry offset"]
+    chk.cov["rule"] = ("retention: hook counts after every add/remove of the random histories compared with TileStore!Retention; "
+                       "archive level: Archive!DedupExact, DataExact, RunsMaximal evaluated on every saved file (runs, A/B/A/B, "
+                       "near-duplicates, duplicates between in-memory and reader-backed tiles)")
+
+
+def c16(chk):
+    mc_store(chk)
+    trace = drive(chk, "canon")
+    chk.validate("Trace_Archive", trace, "canon", scope=scope_of("C16"), parallel=6, cuts=True, timeout=3000)
+    # second save of a target gets a different file token
+    seen = {}
+    def second_save(o):
+        return o["ev"] == "Save" and o["res"] == "ok"
+    lines = vlib.read_events(trace)
+    seg, count = [], 0
+    for ln in lines:
+        seg.append(ln)
+        o = json.loads(ln)
+        if second_save(o) and any(json.loads(x)["ev"] == "Reset" for x in seg):
+            break
+    neg_segment(chk, seg, lambda o: o.update(ftok=o["ftok"] + 100000), "ftok", "C16")
+    trace2 = drive(chk, "bulk")
+    chk.validate("Trace_Archive", trace2, "bulk", scope=scope_of("C16"), parallel=6, cuts=True, timeout=3000)
+    chk.sample({"first_events": [json.loads(x)["ev"] for x in lines[:40]]})
+    chk.cov["rule"] = ("for each logical target (0..1200/6000 tiles, 4 codecs) 4/6 histories (permuted order, detours through wrong "
+                       "content / extra tiles / removes, save+reopen in the middle), alternately in-process and in a fresh OS process; "
+                       "TLC computes each history's map itself and requires equal file tokens for equal (map, settings, api); "
+                       "plus to_writer(from_bytes(b)) = b on the bulk archives")
+
+
+def c01(chk):
+    mc_store(chk)
+    trace = drive(chk, "bulk")
+    chk.validate("Trace_Archive", trace, "bulk", scope=scope_of("C01", "C04"), parallel=6, cuts=True, timeout=3000)
+    seg = segment_with(trace, lambda o: o["ev"] == "Observe")
+    def c_coord(o):
+        o["obs"]["coords"][0] += 1
+    neg_segment(chk, seg, c_coord, "coord", "C01")
+    def c_meta(o):
+        o["obs"]["meta"] += 1
+    neg_segment(chk, seg, c_meta, "meta", "C01")
+    seg = segment_with(trace, lambda o: o["ev"] == "Get" and o["res"] == "some")
+    neg_segment(chk, seg, lambda o: o.update(tok=o["tok"] + 1), "get", "C04")
+    seg = segment_with(trace, lambda o: o["ev"] == "Save" and o["res"] == "ok" and len(o["file"]["tiles"]) >= 2)
+    def drop_tile(o):
+        o["file"]["tiles"][0]["tok"] += 1
+    neg_segment(chk, seg, drop_tile, "addressed", "C01")
+    chk.sample({k: v for k, v in json.loads(seg[1]).items()})
+    chk.cov["rule"] = ("archives of 0..5000 (quick) / 50000 (thorough) tiles, IDs clustered / in runs / scattered up to the last valid ID, "
+                       "contents 1 B..100 KiB with duplicates and near-duplicates, random JSON-object metadata, all compressions / tile "
+                       "types / zooms / coordinates; written (sync/async), reopened (sync/async): listing, count, every (sampled) lookup, "
+                       "neighbour and random absent IDs, settings and metadata compared with the map TLC built from the logged adds")
+
+
+def c02(chk):
+    mc_store(chk)
+    trace = drive(chk, "bulk")
+    chk.validate("Trace_Archive", trace, "bulk", scope=scope_of("C02"), parallel=6, cuts=True, timeout=3000)
+    seg = segment_with(trace, lambda o: o["ev"] == "Save" and o["res"] == "ok" and len(o["file"]["tiles"]) >= 2)
+    def c_counter(o):
+        o["file"]["hdr"][72] ^= 1
+    neg_segment(chk, seg, c_counter, "counter", "C02")
+    def c_root(o):
+        o["file"]["root"]["raw"][-1] = (o["file"]["root"]["raw"][-1] + 1) % 128
+    neg_segment(chk, seg, c_root, "rootbyte", "C02")
+    def c_magic(o):
+        o["file"]["hdr"][0] = 0
+    neg_segment(chk, seg, c_magic, "magic", "C02")
+    def c_meta(o):
+        o["file"]["meta"]["kind"] = "array"
+    neg_segment(chk, seg, c_meta, "metakind", "C02")
+    def c_flen(o):
+        o["file"]["flen"] = [0, 0, 0, 200]
+    neg_segment(chk, seg, c_flen, "flen", "C02")
+    f = json.loads(seg[-1])["file"]
+    chk.sample({"hdr": f["hdr"], "root_raw_len": len(f["root"]["raw"]), "leaves": len(f["leaves"]), "tiles": f["tiles"][:3], "meta": f["meta"]})
+    chk.assumptions += ["decompression of directory and metadata sections is done by the upstream codec crates (opaque to TLA+)",
+                        "the harness' dissection (hint decoder, slicing) is verified by TLC against the raw directory bytes; "
+                        "only the relation 'raw = decompress(file[range])' is trusted"]
+    chk.cov["rule"] = ("every file written in the bulk driver (incl. leaf-spill archives, 4 codecs, sync/async writer) is parsed by the "
+                       "TLA+ reader Archive!WellFormed: header, sections, 16 KiB budget, directories (ParsesTo on raw bytes), ascending "
+                       "non-overlapping entries, tile ranges, three counters, clustered flag, metadata kind")
+
+
+REGISTRY = {"C01": c01, "C02": c02, "C04": c04, "C05": c05, "C07": c07, "C09": c09, "C10": c10, "C16": c16}
 
 
 def replay(pid, path):
